@@ -91,9 +91,32 @@ def as_recorded_dtype(case):
     return dict(case, sig=vals.astype(dt), sig_dtype=np.dtype(dt).name)
 
 
+def as_written(case):
+    """The same settings written the way users write them: the band as a list, the sampling rate and the thresholds as numpy scalars, the
+    amplitude thresholds as a list.  Same values - the specification sees no difference."""
+    import copy
+    k = case.get('k', 0)
+    v = k % 7
+    if v not in (3, 5, 6):
+        return case
+    c = dict(case, opts=copy.deepcopy(case['opts']))
+    if v == 3:
+        c['f_range'] = [float(x) for x in case['f_range']]
+    elif v == 5:
+        c['fs'] = np.int64(case['fs']) if float(case['fs']).is_integer() else np.float64(case['fs'])
+    else:
+        tk = c['opts'].get('threshold_kwargs')
+        if tk:
+            c['opts']['threshold_kwargs'] = {k_: (np.float64(v_) if isinstance(v_, float) else np.int64(v_) if isinstance(v_, int) and not isinstance(v_, bool) else v_) for k_, v_ in tk.items()}
+        bk = c['opts'].get('burst_kwargs')
+        if bk and 'amp_threshes' in bk:
+            bk['amp_threshes'] = list(bk['amp_threshes'])
+    return c
+
+
 def _rec_one(args):
     case, via_object = args
-    case = as_recorded_dtype(case)
+    case = as_written(as_recorded_dtype(case))
     call = None
     if not via_object and case.get('k', 0) % 5 == 2:
         call = staged_call(case['k'] // 5)
